@@ -11,7 +11,11 @@ BOUND = ("all 1-variable and all 256 2-variable networks (thorough) / a seeded s
          "networks with <= 7 variables; trappist on the BooleanNetwork, on its Petri net and on the Petri net restricted to a seeded subspace; problems "
          "min/max/fix x reverse_time x seeded ensure_subspace x 0-2 seeded avoid_subspaces (incl. the empty space) x optimize_source_variables "
          "(default / [] / true sources / seeded variable list) x solution_limit (None,0,1,2,3); compute_fixed_point_reduced_STG with seeded retained "
-         "sets, ensure/avoid subspaces and limits; compared with brute-force enumeration of all 3^n subspaces")
+         "sets, ensure/avoid subspaces and limits; compared with brute-force enumeration of all 3^n subspaces; (sequence) call sequences of <= 14 steps on ONE BooleanNetwork "
+         "object (networks with 2-7 variables) in which 1-4 update functions are replaced in place (set_update_function, new inputs declared with ensure_regulation: other truth table over the "
+         "same inputs, negation, an input dropped, other inputs, constant, identity) between trappist calls of all three problem kinds (systematic: min/max/fix before and after one, two, three "
+         "edits, reversed time, an edit that is taken back, an edit before the first call; seeded: random parameters) - every answer compared with brute force on the network as it is at "
+         "the time of the call, and, after the whole sequence, with the answers for freshly parsed copies")
 RULE = "non-trivial = the reference answer of the trappist call or of the reduced-STG call is non-empty and the network has >= 2 variables"
 CASE_TIMEOUT = 60.0
 
